@@ -13,6 +13,13 @@ Extracted items
   G4  asynchro_fast.rs : POLYNOMIAL_LEN_*, and per PolynomialDegree arm (offset, width, kernel) of the
                          five fixed-in and five fixed-out loop bodies (must agree pairwise)
   G5  interpolation.rs : offsets handed out by get_nearest_times_2/3/4 (range of `sub`)
+  G6..G11 see DESIGN.md 8.3 (effect table, typed scalar formulas, forwarding table, ambient-state scan, validation, sinc.rs)
+  G12 reset(): which struct fields change during use and which of them reset() restores (whole-buffer fills / assignments)
+  G13 the per-channel lengths of the storage the seven constructors allocate
+  G14 history carry (copy_within) and input load of the four asynchronous process_into_buffer bodies
+  G15 data movement of the three synchronous process_into_buffer bodies (35 formulas)
+  G16 lib.rs: the five provided methods of the Resampler trait (statement shapes; which getter sizes what, who is called)
+  G17 what the constructors reject (validate_ratios, validate_sample_rates) and that they validate first
 """
 import json
 import os
@@ -23,8 +30,8 @@ from fractions import Fraction
 
 SRC = os.environ.get("RUBATO_SRC", "/repo/src")
 HERE = os.path.dirname(os.path.abspath(__file__))
-OUT = os.path.join(HERE, "..", "lean", "RubatoModel", "Generated.lean")
-ERR = os.path.join(HERE, "last_error.json")
+OUT = os.environ.get("RS2LEAN_OUT") or os.path.join(HERE, "..", "lean", "RubatoModel", "Generated.lean")
+ERR = os.environ.get("RS2LEAN_ERR") or os.path.join(HERE, "last_error.json")
 
 
 class TranslateError(Exception):
@@ -1334,6 +1341,493 @@ def gen_formulas(item_prefix="G7"):
     return "\n".join(out)
 
 
+# ------------------------------------------------------------------------------------------ G12: reset() restores every mutable field
+RESET_READONLY_METHODS = {"len", "iter", "get", "as_ref", "nbr_sincs", "get_sinc_interpolated", "is_empty", "clone",
+                          "as_slice", "first", "last", "contains", "ceil", "floor", "recip", "abs", "min", "max", "round",
+                          "powi", "sqrt", "to_bits", "is_finite", "is_nan"}
+RESET_SCRATCH = {"resampler"}      # FftResampler: its buffers are completely overwritten by resample_unit before they are read
+
+
+def struct_fields(src, ty, item):
+    m = re.search(r"pub\s+struct\s+" + ty + r"\s*<T>\s*", src)
+    if not m:
+        raise TranslateError(item, f"struct {ty} not found")
+    body, _ = block_after(src, m.end(), item)
+    fields = re.findall(r"(?:^|,|\{)\s*(?:pub(?:\([^)]*\))?\s+)?(\w+)\s*:", body)
+    # re-scan robustly: one field per top-level comma
+    out, depth, cur = [], 0, ""
+    for ch in body:
+        if ch in "<([{":
+            depth += 1
+        elif ch in ">)]}":
+            depth -= 1
+        if ch == "," and depth == 0:
+            out.append(cur)
+            cur = ""
+        else:
+            cur += ch
+    if cur.strip():
+        out.append(cur)
+    names = []
+    for f in out:
+        mm = re.match(r"\s*(?:pub(?:\([^)]*\))?\s+)?(\w+)\s*:", f)
+        if not mm:
+            raise TranslateError(item, f"struct {ty}: cannot read field {f.strip()[:40]!r}")
+        names.append(mm.group(1))
+    return names
+
+
+def all_methods(src, ty, item):
+    """(name, body) of every fn in the inherent impl and the Resampler impl of `ty`"""
+    res = []
+    for pat in (r"impl<T>\s+" + ty + r"<T>", r"impl<T>\s+Resampler<T>\s+for\s+" + ty + r"<T>"):
+        m = re.search(pat, src)
+        if not m:
+            raise TranslateError(item, f"impl block of {ty} not found")
+        impl, _ = block_after(src, m.end(), item)
+        pos = 0
+        while True:
+            mf = re.compile(r"\bfn\s+(\w+)\b").search(impl, pos)
+            if not mf:
+                break
+            i = impl.index("{", mf.end())
+            body, end = block_after(impl, i, item) if False else (None, None)
+            # block_after expects the position BEFORE the opening brace
+            body, end = block_after(impl, mf.end(), item)
+            res.append((mf.group(1), body))
+            pos = end
+    return res
+
+
+def field_writes(body, fields):
+    w = set()
+    for m in re.finditer(r"\bself\s*\.\s*(\w+)(?:\s*\[[^\]]*\])*\s*(?:=(?!=)|\+=|-=|\*=|/=)", body):
+        w.add(m.group(1))
+    for m in re.finditer(r"&mut\s+self\s*\.\s*(\w+)", body):
+        w.add(m.group(1))
+    for m in re.finditer(r"\bself\s*\.\s*(\w+)((?:\s*\[[^\]]*\])*)\s*\.\s*(\w+)\s*\(", body):
+        if m.group(3) not in RESET_READONLY_METHODS:
+            w.add(m.group(1))
+    for m in re.finditer(r"\bin\s+self\s*\.\s*(\w+)\s*\.\s*iter_mut", body):
+        w.add(m.group(1))
+    return {f for f in w if f in fields}
+
+
+def gen_reset_table(item="G12.reset"):
+    ws = r"\s*"
+    zero2 = re.compile(r"self\." + r"(\w+)" + ws + r"\.iter_mut\(\)" + ws + r"\.for_each\(\|(\w+)\|" + ws + r"\2\.iter_mut\(\)\.for_each\(\|(\w+)\|" + ws +
+                       r"\*\3" + ws + r"=" + ws + r"T::zero\(\)\)\);")
+    true1 = re.compile(r"self\.(\w+)\.iter_mut\(\)\.for_each\(\|(\w+)\|" + ws + r"\*\2" + ws + r"=" + ws + r"true\);")
+    assign = re.compile(r"self\.(\w+)" + ws + r"=(?!=)" + ws + r"([^;]*);")
+    local = re.compile(r"let" + ws + r"(\w+)" + ws + r"=" + ws + r"([^;]*);")
+    rows = []
+    for tid, (T, file) in enumerate(SEVEN):
+        src = strip_comments(read(file))
+        cut = src.find("#[cfg(test)]")
+        if cut >= 0:
+            src = src[:cut]
+        fields = struct_fields(src, T, item)
+        methods = all_methods(src, T, item)
+        mutable = set()
+        reset_body = None
+        for name, body in methods:
+            body = strip_log_macros(body)
+            if name == "reset":
+                reset_body = body
+                continue
+            if name in ("new", "new_with_interpolator"):
+                continue
+            mutable |= field_writes(body, fields)
+        if reset_body is None:
+            raise TranslateError(item, f"{T}::reset not found")
+        restored = {}
+        rest = reset_body.strip()
+        while rest:
+            m = zero2.match(rest)
+            if m:
+                restored[m.group(1)] = "every sample of every channel := 0"
+                rest = rest[m.end():].lstrip()
+                continue
+            m = true1.match(rest)
+            if m:
+                restored[m.group(1)] = "every entry := true"
+                rest = rest[m.end():].lstrip()
+                continue
+            m = assign.match(rest)
+            if m:
+                restored[m.group(1)] = ":= " + " ".join(m.group(2).split())
+                rest = rest[m.end():].lstrip()
+                continue
+            m = local.match(rest)
+            if m:
+                rest = rest[m.end():].lstrip()
+                continue
+            raise TranslateError(item, f"{T}::reset: statement outside the grammar (whole-buffer zero fill, whole-mask true fill, "
+                                       f"scalar assignment, let): {rest[:90]!r}")
+        for f in restored:
+            if f not in fields:
+                raise TranslateError(item, f"{T}::reset assigns unknown field {f}")
+        for fi, f in enumerate(fields):
+            rows.append((tid, fi, f in mutable, f in restored, f in RESET_SCRATCH, T, f, restored.get(f, "")))
+    out = ["/-- every field of the seven resampler structs: (type id, field index, written by some method other than the constructors and",
+           "    reset, restored by reset() with a whole-buffer fill or an assignment, scratch storage that is overwritten before it is",
+           "    read).  reset() statements outside that grammar (a partial fill, a loop over a sub-range) fail the translation. -/",
+           "def resetTable : List (Nat × Nat × Bool × Bool × Bool) := ["]
+    b = lambda x: "true" if x else "false"
+    out.append(",\n".join(f"  ({t}, {fi}, {b(mu)}, {b(re_)}, {b(sc)})  /- {T}.{f}{(' ' + how) if how else ''} -/"
+                          for t, fi, mu, re_, sc, T, f, how in rows) + "]")
+    return "\n".join(out)
+
+
+# ------------------------------------------------------------------------------------------ G13: storage allocated by the constructors
+def gen_storage(item="G13.storage"):
+    """the per-channel lengths of every Vec<Vec<T>> field the seven constructors allocate"""
+    fast = strip_comments(read("asynchro_fast.rs"))
+    sinc = strip_comments(read("asynchro_sinc.rs"))
+    syn = strip_comments(read("synchro.rs"))
+    consts_fast = {"POLYNOMIAL_LEN_U": ("Fast.polyLen", "N")}
+    out = []
+    sigs = []
+
+    def ctor(src, T, fname):
+        m = re.search(r"impl<T>\s+" + T + r"<T>", src)
+        if not m:
+            raise TranslateError(item, f"impl block of {T} not found")
+        implb, _ = block_after(src, m.end(), item)
+        return fn_body(implb, fname, item)[1]
+
+    def one(name, body, T, local, consts, locs, doc):
+        it = f"{item}.{name}"
+        m = re.search(r"let\s+" + local + r"\s*(?::\s*Vec<Vec<T>>\s*)?=\s*vec!\[\s*vec!\[\s*T::zero\(\)\s*;\s*(.*?)\]\s*;\s*nbr_channels\s*\]\s*;", body, re.S)
+        if not m:
+            raise TranslateError(it, f"{T}: `let {local} = vec![vec![T::zero(); <len>]; nbr_channels];` not found")
+        # the struct literal must take the field from that local (shorthand initialiser)
+        lit = re.search(r"Ok\(\s*" + T + r"\s*\{(.*?)\}\s*\)", body, re.S)
+        if not lit or not re.search(r"(?:^|,)\s*" + local + r"\s*(?:,|$)", lit.group(1)):
+            raise TranslateError(it, f"{T}: the constructor does not initialise field `{local}` from the local of that name")
+        d, params = gen_formula(it, name, m.group(1), {}, consts, "N", doc, locs)
+        out.append(d)
+        out.append("")
+        sigs.append((name, params))
+
+    b = ctor(fast, "FastFixedIn", "new")
+    one("fastIn_buffer_len", b, "FastFixedIn", "buffer", consts_fast, {"chunk_size": "N"}, "FastFixedIn::new: frames per channel of `buffer`")
+    b = ctor(sinc, "SincFixedIn", "new_with_interpolator").replace("interpolator.len()", "sinc_len")
+    one("sincIn_buffer_len", b, "SincFixedIn", "buffer", {}, {"chunk_size": "N", "sinc_len": "N"}, "SincFixedIn::new_with_interpolator: frames per channel of `buffer`")
+    L3 = {"chunk_size_in": "N", "chunk_size_out": "N", "fft_size_in": "N", "fft_size_out": "N"}
+    b = ctor(syn, "FftFixedInOut", "new")
+    one("fftIo_overlap_len", b, "FftFixedInOut", "overlaps", {}, L3, "FftFixedInOut::new: frames per channel of `overlaps`")
+    b = ctor(syn, "FftFixedOut", "new")
+    one("fftOut_overlap_len", b, "FftFixedOut", "overlaps", {}, L3, "FftFixedOut::new: frames per channel of `overlaps`")
+    one("fftOut_output_buffer_len", b, "FftFixedOut", "output_buffers", {}, L3, "FftFixedOut::new: frames per channel of `output_buffers`")
+    b = ctor(syn, "FftFixedIn", "new")
+    one("fftIn_overlap_len", b, "FftFixedIn", "overlaps", {}, L3, "FftFixedIn::new: frames per channel of `overlaps`")
+    one("fftIn_input_buffer_len", b, "FftFixedIn", "input_buffers", {}, L3, "FftFixedIn::new: frames per channel of `input_buffers`")
+    out.append("/-- which locals each storage formula reads -/")
+    out.append("def storageParams : List (String × List String) := [")
+    out.append(",\n".join(f'  ("{k}", [{", ".join(chr(34) + p + chr(34) for p in v)}])' for k, v in sigs) + "]")
+    return "\n".join(out)
+
+
+# ------------------------------------------------------------------------------------------ G14: history carry and input load
+def gen_refill(item="G14.refill"):
+    """the two buffer-maintenance statements at the head of the four asynchronous process_into_buffer bodies:
+    `buf.copy_within(A..B, C)` for every channel, then `self.buffer[chan][X..Y].copy_from_slice(&wave_in[chan][..N])` for the
+    active ones -- A, B, C, X, Y, N as formulas"""
+    fast = strip_comments(read("asynchro_fast.rs"))
+    sinc = strip_comments(read("asynchro_sinc.rs"))
+    consts_fast = {"POLYNOMIAL_LEN_U": ("Fast.polyLen", "N")}
+    out, sigs = [], []
+    ws = r"\s*"
+    carry = re.compile(r"for" + ws + r"buf" + ws + r"in" + ws + r"self\.buffer\.iter_mut\(\)" + ws + r"\{" + ws +
+                       r"buf\.copy_within\(" + ws + r"(.*?)\.\.(.*?)," + ws + r"([^,()]*?),?" + ws + r"\);" + ws + r"\}", re.S)
+    load = re.compile(r"self\.buffer\[chan\]\[(.*?)\.\.(.*?)\]" + ws + r"\.copy_from_slice\(&wave_in(?:\[chan\])?\.as_ref\(\)\[\.\.(.*?)\]\);", re.S)
+    for T, pre, src, cs in (("FastFixedIn", "fastIn", fast, consts_fast), ("FastFixedOut", "fastOut", fast, consts_fast),
+                            ("SincFixedIn", "sincIn", sinc, {}), ("SincFixedOut", "sincOut", sinc, {})):
+        pb = strip_log_macros(impl_method_body(src, T, "process_into_buffer", item))
+        fts = struct_field_types(src, T, item)
+        mc = carry.findall(pb)
+        ml = load.findall(pb)
+        if len(mc) != 1:
+            raise TranslateError(f"{item}.{pre}_carry", f"{T}::process_into_buffer: expected exactly one `for buf in self.buffer.iter_mut() {{ buf.copy_within(a..b, c); }}`, found {len(mc)}")
+        if len(ml) != 1:
+            raise TranslateError(f"{item}.{pre}_load", f"{T}::process_into_buffer: expected exactly one `self.buffer[chan][x..y].copy_from_slice(&wave_in[chan].as_ref()[..n]);`, found {len(ml)}")
+        if pb.index("copy_within") > pb.index("copy_from_slice(&wave_in"):
+            raise TranslateError(f"{item}.{pre}_order", f"{T}::process_into_buffer loads the input before carrying the history over")
+        # no other write to the buffer before the interpolation loop starts
+        head = pb[:pb.index("let mut idx")] if "let mut idx" in pb else pb
+        others = re.findall(r"self\.buffer\b[^;]*?(?:=(?!=)|\.(?:fill|swap|resize|clear|push|truncate|rotate_\w+)\s*\()", head)
+        if others:
+            raise TranslateError(f"{item}.{pre}_extra", f"{T}::process_into_buffer writes to the buffer outside the carry and the load: {others[0][:60]!r}")
+        loc = {"sinc_len": "N"}
+        for nm, text in zip(("carry_from", "carry_to", "carry_dest"), mc[0]):
+            d, params = gen_formula(f"{item}.{pre}_{nm}", f"{pre}_{nm}", text.strip(), fts, cs, "N", f"{T}::process_into_buffer: copy_within {nm}", loc)
+            out += [d, ""]
+            sigs.append((f"{pre}_{nm}", params))
+        for nm, text in zip(("load_from", "load_to", "load_len"), ml[0]):
+            d, params = gen_formula(f"{item}.{pre}_{nm}", f"{pre}_{nm}", text.strip(), fts, cs, "N", f"{T}::process_into_buffer: input load {nm}", loc)
+            out += [d, ""]
+            sigs.append((f"{pre}_{nm}", params))
+    out.append("/-- which fields / locals each buffer-maintenance formula reads -/")
+    out.append("def refillParams : List (String × List String) := [")
+    out.append(",\n".join(f'  ("{k}", [{", ".join(chr(34) + p + chr(34) for p in v)}])' for k, v in sigs) + "]")
+    return "\n".join(out)
+
+
+# ------------------------------------------------------------------------------------------ G15: data movement of the FFT resamplers
+def gen_fft_moves(item="G15.fft_moves"):
+    """the statements of the three synchronous process_into_buffer bodies that move frames between the caller's buffers, the
+    internal staging buffers and the per-block unit: slice bounds, block sizes, carry-over ranges, and the counts returned"""
+    syn = strip_comments(read("synchro.rs"))
+    out, sigs = [], []
+    ws = r"\s*"
+
+    def norm(s):
+        return re.sub(r"\s+", "", s)
+
+    def f(pre, name, text, fts, loc, doc, ty="N"):
+        d, params = gen_formula(f"{item}.{pre}_{name}", f"{pre}_{name}", text.strip(), fts, {}, ty, doc, loc)
+        out.extend([d, ""])
+        sigs.append((f"{pre}_{name}", params))
+
+    def need(pb, pat, what, T):
+        m = re.search(pat, pb, re.S)
+        if not m:
+            raise TranslateError(f"{item}.{what}", f"{T}::process_into_buffer: statement not found: {what}")
+        return m
+
+    # ---- FftFixedInOut
+    T, pre = "FftFixedInOut", "fftIo"
+    fts = struct_field_types(syn, T, item)
+    pb = strip_log_macros(impl_method_body(syn, T, "process_into_buffer", item))
+    m = need(pb, r"for" + ws + r"\((\w+)," + ws + r"active\)" + ws + r"in" + ws + r"self\.channel_mask\.iter\(\)\.enumerate\(\)" + ws + r"\{" + ws +
+             r"if" + ws + r"\*active" + ws + r"\{" + ws + r"self\.resampler\.resample_unit\(" + ws +
+             r"&wave_in\[\1\]\.as_ref\(\)\[\.\.(.*?)\]," + ws + r"&mut" + ws + r"wave_out\[\1\]\.as_mut\(\)\[\.\.(.*?)\]," + ws +
+             r"&mut" + ws + r"self\.overlaps\[\1\],?" + ws + r"\)" + ws + r";?" + ws + r"\}" + ws + r"\}", "fftIo_unit_call", T)
+    f(pre, "unit_in_len", m.group(2), fts, {}, "FftFixedInOut: frames of the caller's input handed to the unit")
+    f(pre, "unit_out_len", m.group(3), fts, {}, "FftFixedInOut: frames of the caller's output the unit writes")
+    m = need(pb, r"Ok\(\((.*?)," + ws + r"(.*?)\)\)" + ws + r"$", "fftIo_return", T)
+    f(pre, "ret_in", m.group(1), fts, {}, "FftFixedInOut: input frames reported")
+    f(pre, "ret_out", m.group(2), fts, {}, "FftFixedInOut: output frames reported")
+
+    # ---- FftFixedIn
+    T, pre = "FftFixedIn", "fftIn"
+    fts = struct_field_types(syn, T, item)
+    pb = strip_log_macros(impl_method_body(syn, T, "process_into_buffer", item))
+    loc = {"next_saved_frames": "N", "nbr_chunks_ready": "N", "needed_len": "N", "frames_in_used": "N", "extra": "N"}
+    m = need(pb, r"for" + ws + r"\(input," + ws + r"buffer\)" + ws + r"in" + ws + r"wave_in\[chan\]\.as_ref\(\)\.iter\(\)\.zip\(" + ws +
+             r"self\.input_buffers\[chan\]" + ws + r"\.iter_mut\(\)" + ws + r"\.skip\((.*?)\)" + ws + r"\.take\((.*?)\),?" + ws + r"\)" + ws +
+             r"\{" + ws + r"\*buffer" + ws + r"=" + ws + r"\*input;" + ws + r"\}", "fftIn_input_copy", T)
+    f(pre, "copy_at", m.group(1), fts, loc, "FftFixedIn: where the new frames are stored in `input_buffers`")
+    f(pre, "copy_len", m.group(2), fts, loc, "FftFixedIn: how many new frames are stored")
+    copy_end = m.end()
+    m = need(pb[copy_end:], r"^[\s}]*self\.saved_frames" + ws + r"=" + ws + r"(.*?);", "fftIn_saved_after_copy", T)
+    f(pre, "saved_after_copy", m.group(1), fts, loc, "FftFixedIn: saved_frames after storing the request")
+    m = need(pb, r"for" + ws + r"\(in_chunk," + ws + r"out_chunk\)" + ws + r"in" + ws + r"self\.input_buffers\[chan\]" + ws + r"\.chunks\((.*?)\)" + ws +
+             r"\.take\((.*?)\)" + ws + r"\.zip\(wave_out\[chan\]\.as_mut\(\)\.chunks_mut\((.*?)\)\)" + ws + r"\{" + ws +
+             r"self\.resampler" + ws + r"\.resample_unit\(in_chunk," + ws + r"out_chunk," + ws + r"&mut" + ws + r"self\.overlaps\[chan\]\);" + ws + r"\}",
+             "fftIn_block_loop", T)
+    f(pre, "block_in", m.group(1), fts, loc, "FftFixedIn: input block length")
+    f(pre, "blocks", m.group(2), fts, loc, "FftFixedIn: number of blocks processed")
+    f(pre, "block_out", m.group(3), fts, loc, "FftFixedIn: output block length")
+    f(pre, "frames_in_used", need(pb, r"let" + ws + r"frames_in_used" + ws + r"=" + ws + r"(.*?);", "fftIn_frames_in_used", T).group(1), fts, loc,
+      "FftFixedIn: frames consumed from the staging buffer")
+    f(pre, "extra", need(pb, r"let" + ws + r"extra" + ws + r"=" + ws + r"(.*?);", "fftIn_extra", T).group(1), fts, loc,
+      "FftFixedIn: frames carried over")
+    m = need(pb, r"if" + ws + r"(self\.saved_frames" + ws + r">" + ws + r"frames_in_used)" + ws + r"\{" + ws + r"for" + ws + r"\(chan," + ws + r"active\)" + ws + r"in" + ws +
+             r"self\.channel_mask\.iter\(\)\.enumerate\(\)" + ws + r"\{" + ws + r"if" + ws + r"\*active" + ws + r"\{" + ws +
+             r"self\.input_buffers\[chan\]\.copy_within\((.*?)\.\.(.*?)," + ws + r"(\w+)\);" + ws + r"\}" + ws + r"\}" + ws + r"\}" + ws +
+             r"self\.saved_frames" + ws + r"=" + ws + r"(.*?);" + ws + r"Ok\(\((.*?)," + ws + r"(.*?)\)\)" + ws + r"$", "fftIn_carry", T)
+    f(pre, "carry_cond", m.group(1), fts, loc, "FftFixedIn: the carry-over is moved when", "B")
+    f(pre, "carry_from", m.group(2), fts, loc, "FftFixedIn: carry-over source start")
+    f(pre, "carry_to", m.group(3), fts, loc, "FftFixedIn: carry-over source end")
+    f(pre, "carry_dest", m.group(4), fts, loc, "FftFixedIn: carry-over destination")
+    f(pre, "saved_final", m.group(5), fts, loc, "FftFixedIn: saved_frames on return")
+    f(pre, "ret_in", m.group(6), fts, loc, "FftFixedIn: input frames reported")
+    f(pre, "ret_out", m.group(7), fts, loc, "FftFixedIn: output frames reported")
+
+    # ---- FftFixedOut
+    T, pre = "FftFixedOut", "fftOut"
+    fts = struct_field_types(syn, T, item)
+    pb = strip_log_macros(impl_method_body(syn, T, "process_into_buffer", item))
+    loc = {"processed_frames": "N", "frames_needed_out": "N", "input_frames_used": "N", "chunks_needed": "N"}
+    m = need(pb, r"for" + ws + r"\(in_chunk," + ws + r"out_chunk\)" + ws + r"in" + ws + r"wave_in\[chan\]\.as_ref\(\)\[\.\.(.*?)\]" + ws + r"\.chunks\((.*?)\)" + ws +
+             r"\.zip\(" + ws + r"self\.output_buffers\[chan\]\[(.*?)\.\.\]" + ws + r"\.chunks_mut\((.*?)\),?" + ws + r"\)" + ws + r"\{" + ws +
+             r"self\.resampler" + ws + r"\.resample_unit\(in_chunk," + ws + r"out_chunk," + ws + r"&mut" + ws + r"self\.overlaps\[chan\]\);" + ws + r"\}",
+             "fftOut_block_loop", T)
+    f(pre, "in_len", m.group(1), fts, loc, "FftFixedOut: frames of the caller's input that are cut into blocks")
+    f(pre, "block_in", m.group(2), fts, loc, "FftFixedOut: input block length")
+    f(pre, "store_at", m.group(3), fts, loc, "FftFixedOut: where the new blocks are staged in `output_buffers`")
+    f(pre, "block_out", m.group(4), fts, loc, "FftFixedOut: output block length")
+    f(pre, "processed", need(pb, r"let" + ws + r"processed_frames" + ws + r"=" + ws + r"(.*?);", "fftOut_processed", T).group(1), fts, loc,
+      "FftFixedOut: frames staged after the blocks of this call")
+    m = need(pb, r"if" + ws + r"(processed_frames" + ws + r">=" + ws + r"self\.chunk_size_out)" + ws + r"\{" + ws + r"self\.saved_frames" + ws + r"=" + ws + r"(.*?);" + ws +
+             r"for" + ws + r"\(chan," + ws + r"active\)" + ws + r"in" + ws + r"self\.channel_mask\.iter\(\)\.enumerate\(\)" + ws + r"\{" + ws + r"if" + ws + r"\*active" + ws + r"\{" + ws +
+             r"wave_out\[chan\]\.as_mut\(\)\[\.\.(.*?)\]" + ws + r"\.copy_from_slice\(&self\.output_buffers\[chan\]\[\.\.(.*?)\]\);" + ws +
+             r"self\.output_buffers\[chan\]\.copy_within\(" + ws + r"(.*?)\.\.\((.*?)\)," + ws + r"(\w+),?" + ws + r"\);" + ws + r"\}" + ws + r"\}" + ws + r"\}" + ws +
+             r"else" + ws + r"\{" + ws + r"self\.saved_frames" + ws + r"=" + ws + r"(.*?);" + ws + r"\}", "fftOut_deliver", T)
+    f(pre, "deliver_cond", m.group(1), fts, loc, "FftFixedOut: a chunk is delivered when", "B")
+    f(pre, "saved_delivered", m.group(2), fts, loc, "FftFixedOut: saved_frames after delivering a chunk")
+    f(pre, "out_len", m.group(3), fts, loc, "FftFixedOut: frames written to the caller's output")
+    f(pre, "out_src_len", m.group(4), fts, loc, "FftFixedOut: frames taken from the staging buffer")
+    f(pre, "carry_from", m.group(5), fts, loc, "FftFixedOut: carry-over source start")
+    f(pre, "carry_to", m.group(6), fts, loc, "FftFixedOut: carry-over source end")
+    f(pre, "carry_dest", m.group(7), fts, loc, "FftFixedOut: carry-over destination")
+    f(pre, "saved_kept", m.group(8), fts, loc, "FftFixedOut: saved_frames when no chunk is delivered")
+    m = need(pb, r"let" + ws + r"input_frames_used" + ws + r"=" + ws + r"(.*?);", "fftOut_used", T)
+    f(pre, "used", m.group(1), fts, loc, "FftFixedOut: input frames consumed")
+    m = need(pb, r"Ok\(\((.*?)," + ws + r"(.*?)\)\)" + ws + r"$", "fftOut_return", T)
+    f(pre, "ret_in", m.group(1), fts, loc, "FftFixedOut: input frames reported")
+    f(pre, "ret_out", m.group(2), fts, loc, "FftFixedOut: output frames reported")
+    # `input_frames_used` must be read before frames_needed is recomputed
+    if pb.index("let input_frames_used") > pb.rindex("self.frames_needed ="):
+        raise TranslateError(f"{item}.fftOut_used_order", "FftFixedOut: input_frames_used is read after frames_needed has been recomputed")
+    out.append("/-- which fields / locals each data-movement formula reads -/")
+    out.append("def moveParams : List (String × List String) := [")
+    out.append(",\n".join(f'  ("{k}", [{", ".join(chr(34) + p + chr(34) for p in v)}])' for k, v in sigs) + "]")
+    return "\n".join(out)
+
+
+# ------------------------------------------------------------------------------------------ G16: the provided methods of the Resampler trait
+GETTER_ID = {"input_frames_next": 0, "input_frames_max": 1, "output_frames_next": 2, "output_frames_max": 3}
+CORE_ID = {"process_into_buffer": 0, "process_partial_into_buffer": 1, "make_buffer": 2}
+
+
+def gen_trait_defaults(item="G16.trait_defaults"):
+    """lib.rs: the five provided methods of `Resampler` (process, process_partial_into_buffer, process_partial,
+    input_buffer_allocate, output_buffer_allocate): which getter sizes the buffer each of them allocates, which method it
+    delegates to, and (checked on the text) how masked channels, short inputs and the returned length are handled."""
+    lib = strip_comments(read("lib.rs"))
+    m = re.search(r"pub\s+trait\s+Resampler<T>\s*:\s*Send\s*(?:where\s+T\s*:\s*Sample\s*,?\s*)?", lib)
+    if not m:
+        raise TranslateError(item, "trait Resampler<T> not found")
+    trait, _ = block_after(lib, m.end(), item)
+    ws = r"\s*"
+    rows = []
+
+    def nb(name):
+        return re.sub(r"\s+", " ", strip_log_macros(fn_body(trait, name, item)[1])).strip()
+
+    out_alloc = (r"let frames = self\.(\w+)\(\); let channels = self\.nbr_channels\(\); let mut wave_out = Vec::with_capacity\(channels\); "
+                 r"for chan in 0\.\.channels \{ let chan_out = if active_channels_mask \.and_then\(\|mask\| mask\.get\(chan\)\.copied\(\)\) \.unwrap_or\(true\) "
+                 r"\{ vec!\[T::zero\(\); frames\] \} else \{ vec!\[\] \}; wave_out\.push\(chan_out\); \} "
+                 r"let \(_, out_len\) = self\.(\w+)\((wave_in), &mut wave_out, active_channels_mask\)\?; "
+                 r"for chan_out in wave_out\.iter_mut\(\) \{ chan_out\.truncate\(out_len\); \} Ok\(wave_out\)$")
+    for mid, name in ((0, "process"), (2, "process_partial")):
+        b = nb(name)
+        mm = re.match(out_alloc, b)
+        if not mm:
+            raise TranslateError(f"{item}.{name}", f"Resampler::{name} is not `allocate frames = <getter>() per ACTIVE channel (empty for masked ones), "
+                                 "delegate, truncate every channel to the returned length, Ok(wave_out)`")
+        if mm.group(1) not in GETTER_ID or mm.group(2) not in CORE_ID:
+            raise TranslateError(f"{item}.{name}", f"unexpected getter / delegate {mm.group(1)} / {mm.group(2)}")
+        rows.append((mid, GETTER_ID[mm.group(1)], CORE_ID[mm.group(2)], f"{name}: sized by {mm.group(1)}(), delegates to {mm.group(2)}"))
+    b = nb("process_partial_into_buffer")
+    pad = (r"let frames = self\.(\w+)\(\); let mut wave_in_padded = Vec::with_capacity\(self\.nbr_channels\(\)\); "
+           r"for _ in 0\.\.self\.nbr_channels\(\) \{ wave_in_padded\.push\(vec!\[T::zero\(\); frames\]\); \} "
+           r"if let Some\(input\) = wave_in \{ for \(ch_input, ch_padded\) in input\.iter\(\)\.zip\(wave_in_padded\.iter_mut\(\)\) \{ "
+           r"let mut frames_in = ch_input\.as_ref\(\)\.len\(\); if frames_in > frames \{ frames_in = frames; \} "
+           r"if frames_in > 0 \{ ch_padded\[\.\.frames_in\]\.copy_from_slice\(&ch_input\.as_ref\(\)\[\.\.frames_in\]\); \} else \{ ch_padded\.clear\(\); \} \} \} "
+           r"self\.(\w+)\(&wave_in_padded, wave_out, active_channels_mask\)$")
+    mm = re.match(pad, b)
+    if not mm:
+        raise TranslateError(f"{item}.process_partial_into_buffer", "Resampler::process_partial_into_buffer is not `zero buffer of <getter>() frames per channel, "
+                             "copy min(len, frames) frames of every supplied channel (an empty one is cleared), delegate`")
+    if mm.group(1) not in GETTER_ID or mm.group(2) not in CORE_ID:
+        raise TranslateError(f"{item}.process_partial_into_buffer", f"unexpected getter / delegate {mm.group(1)} / {mm.group(2)}")
+    rows.append((1, GETTER_ID[mm.group(1)], CORE_ID[mm.group(2)], f"process_partial_into_buffer: padded to {mm.group(1)}(), delegates to {mm.group(2)}"))
+    for mid, name in ((3, "input_buffer_allocate"), (4, "output_buffer_allocate")):
+        b = nb(name)
+        mm = re.match(r"let frames = self\.(\w+)\(\); let channels = self\.nbr_channels\(\); (\w+)\(channels, frames, filled\)$", b)
+        if not mm or mm.group(1) not in GETTER_ID or mm.group(2) not in CORE_ID:
+            raise TranslateError(f"{item}.{name}", f"Resampler::{name} is not `make_buffer(self.nbr_channels(), self.<getter>(), filled)`")
+        rows.append((mid, GETTER_ID[mm.group(1)], CORE_ID[mm.group(2)], f"{name}: {mm.group(1)}() frames per channel"))
+    mb = re.sub(r"\s+", " ", fn_body(lib, "make_buffer", item)[1]).strip()
+    if not re.match(r"let mut buffer = Vec::with_capacity\(channels\); for _ in 0\.\.channels \{ buffer\.push\(Vec::with_capacity\(frames\)\); \} "
+                    r"if filled \{ resize_buffer\(&mut buffer, frames\) \} buffer$", mb):
+        raise TranslateError(f"{item}.make_buffer", "make_buffer is not `channels vectors of capacity frames, resized to frames when filled`")
+    rb = re.sub(r"\s+", " ", fn_body(lib, "resize_buffer", item)[1]).strip()
+    if not re.match(r"buffer\.iter_mut\(\)\.for_each\(\|v\| v\.resize\(frames, T::zero\(\)\)\);?$", rb):
+        raise TranslateError(f"{item}.resize_buffer", "resize_buffer is not `every channel resized to frames with zeros`")
+    rows.sort()
+    out = ["/-- the provided methods of `Resampler`: (method 0 process / 1 process_partial_into_buffer / 2 process_partial /",
+           "    3 input_buffer_allocate / 4 output_buffer_allocate, the getter that sizes what it allocates: 0 input_frames_next /",
+           "    1 input_frames_max / 2 output_frames_next / 3 output_frames_max, what it delegates to: 0 process_into_buffer /",
+           "    1 process_partial_into_buffer / 2 make_buffer) -/",
+           "def traitDefaults : List (Nat × Nat × Nat) := ["]
+    out.append(",\n".join(f"  ({a}, {b}, {c})  /- {doc} -/" for a, b, c, doc in rows) + "]")
+    return "\n".join(out)
+
+
+# ------------------------------------------------------------------------------------------ G17: what the constructors reject
+def gen_ctor_validation(item="G17.ctor_validation"):
+    """validate_ratios (asynchro_fast.rs and asynchro_sinc.rs must agree) and validate_sample_rates (synchro.rs) as decision
+    lists, and (checked on the text) that each of the seven constructors calls its validator on its own arguments before it
+    computes or allocates anything"""
+    fast = strip_comments(read("asynchro_fast.rs"))
+    sinc = strip_comments(read("asynchro_sinc.rs"))
+    syn = strip_comments(read("synchro.rs"))
+    out = []
+    ws = r"\s*"
+    vr = re.compile(r"^" + ws + r"if" + ws + r"(.*?)" + ws + r"\{" + ws + r"return" + ws + r"Err\(ResamplerConstructionError::InvalidRatio\(resample_ratio\)\);" + ws + r"\}" + ws +
+                    r"if" + ws + r"(.*?)" + ws + r"\{" + ws + r"return" + ws + r"Err\(ResamplerConstructionError::InvalidRelativeRatio\(" + ws +
+                    r"max_resample_ratio_relative,?" + ws + r"\)\);" + ws + r"\}" + ws + r"Ok\(\(\)\)" + ws + r"$", re.S)
+    conds = []
+    for name, src in (("asynchro_fast.rs", fast), ("asynchro_sinc.rs", sinc)):
+        sig, body = fn_body(src, "validate_ratios", item)
+        m = vr.match(body)
+        if not m:
+            raise TranslateError(f"{item}.validate_ratios", f"{name}: validate_ratios is not `if <c1> {{ return Err(InvalidRatio(resample_ratio)) }} "
+                                 "if <c2> { return Err(InvalidRelativeRatio(max_resample_ratio_relative)) } Ok(())`")
+        conds.append((re.sub(r"\s+", " ", m.group(1)), re.sub(r"\s+", " ", m.group(2))))
+    if conds[0] != conds[1]:
+        raise TranslateError(f"{item}.validate_ratios", f"the two copies of validate_ratios differ: {conds[0]} vs {conds[1]}")
+    loc = {"resample_ratio": "F", "max_resample_ratio_relative": "F"}
+    d, _ = gen_formula(f"{item}.invalid_ratio", "ctor_invalid_ratio", conds[0][0], {}, {}, "B", "validate_ratios: InvalidRatio when", loc)
+    out += [d, ""]
+    d, _ = gen_formula(f"{item}.invalid_relative", "ctor_invalid_relative", conds[0][1], {}, {}, "B", "validate_ratios: InvalidRelativeRatio when", loc)
+    out += [d, ""]
+    sig, body = fn_body(syn, "validate_sample_rates", item)
+    m = re.match(r"^" + ws + r"if" + ws + r"(.*?)" + ws + r"\{" + ws + r"return" + ws + r"Err\(ResamplerConstructionError::InvalidSampleRate" + ws + r"\{" + ws +
+                 r"input," + ws + r"output" + ws + r"\}\);" + ws + r"\}" + ws + r"Ok\(\(\)\)" + ws + r"$", body, re.S)
+    if not m:
+        raise TranslateError(f"{item}.validate_sample_rates", "validate_sample_rates is not `if <c> { return Err(InvalidSampleRate { input, output }) } Ok(())`")
+    d, _ = gen_formula(f"{item}.invalid_rates", "ctor_invalid_rates", m.group(1), {}, {}, "B", "validate_sample_rates: InvalidSampleRate when",
+                       {"input": "N", "output": "N"})
+    out += [d, ""]
+    # every constructor validates first
+    rows = []
+    for tid, (T, src, fname, call) in enumerate((
+            ("FastFixedIn", fast, "new", r"validate_ratios\(resample_ratio,\s*max_resample_ratio_relative\)\?;"),
+            ("FastFixedOut", fast, "new", r"validate_ratios\(resample_ratio,\s*max_resample_ratio_relative\)\?;"),
+            ("SincFixedIn", sinc, "new_with_interpolator", r"validate_ratios\(resample_ratio,\s*max_resample_ratio_relative\)\?;"),
+            ("SincFixedOut", sinc, "new_with_interpolator", r"validate_ratios\(resample_ratio,\s*max_resample_ratio_relative\)\?;"),
+            ("FftFixedIn", syn, "new", r"validate_sample_rates\(sample_rate_input,\s*sample_rate_output\)\?;"),
+            ("FftFixedOut", syn, "new", r"validate_sample_rates\(sample_rate_input,\s*sample_rate_output\)\?;"),
+            ("FftFixedInOut", syn, "new", r"validate_sample_rates\(sample_rate_input,\s*sample_rate_output\)\?;"))):
+        m = re.search(r"impl<T>\s+" + T + r"<T>", src)
+        if not m:
+            raise TranslateError(item, f"impl block of {T} not found")
+        implb, _ = block_after(src, m.end(), item)
+        body = strip_log_macros(fn_body(implb, fname, item)[1]).lstrip(" \n;")
+        mc = re.match(call, body)
+        if not mc:
+            raise TranslateError(f"{item}.{T}", f"{T}::{fname} does not start by validating its arguments ({call})")
+        rows.append((tid, 1, T))
+    # the sinc `new` constructors build the interpolator and hand over to new_with_interpolator with the same arguments
+    for T in ("SincFixedIn", "SincFixedOut"):
+        m = re.search(r"impl<T>\s+" + T + r"<T>", sinc)
+        implb, _ = block_after(sinc, m.end(), item)
+        body = re.sub(r"\s+", " ", strip_log_macros(fn_body(implb, "new", item)[1]))
+        if not re.search(r"Self::new_with_interpolator\( resample_ratio, max_resample_ratio_relative, parameters\.interpolation, interpolator, chunk_size, nbr_channels, \)", body):
+            raise TranslateError(f"{item}.{T}_new", f"{T}::new does not hand (resample_ratio, max_resample_ratio_relative, parameters.interpolation, interpolator, "
+                                 "chunk_size, nbr_channels) to new_with_interpolator")
+    out.append("/-- (type id, 1 = the constructor's first statement is the validation of its own arguments) -/")
+    out.append("def ctorValidatesFirst : List (Nat × Nat) := [")
+    out.append(",\n".join(f"  ({t}, {v})  /- {T} -/" for t, v, T in rows) + "]")
+    return "\n".join(out)
+
+
 # ----------------------------------------------------------------------------- driver
 HEADER = """/-
 GENERATED by /verif/translate/rs2lean.py from /repo/src — do not edit.
@@ -1701,6 +2195,24 @@ def generate():
     parts.append("namespace Forward")
     parts.append(gen_forwarding())
     parts.append("end Forward\n")
+    parts.append("namespace Reset")
+    parts.append(gen_reset_table())
+    parts.append("end Reset\n")
+    parts.append("namespace Storage")
+    parts.append(gen_storage())
+    parts.append("end Storage\n")
+    parts.append("namespace Refill")
+    parts.append(gen_refill())
+    parts.append("end Refill\n")
+    parts.append("namespace Moves")
+    parts.append(gen_fft_moves())
+    parts.append("end Moves\n")
+    parts.append("namespace TraitDefaults")
+    parts.append(gen_trait_defaults())
+    parts.append("end TraitDefaults\n")
+    parts.append("namespace Ctor")
+    parts.append(gen_ctor_validation())
+    parts.append("end Ctor\n")
     parts.append("end Rubato.Gen")
     return "\n".join(parts) + "\n"
 
